@@ -246,6 +246,25 @@ Theorem C08_refuted_crop_fancy_left_edge :
 Proof. exact crop_cols_left_edge_refuted. Qed.
 Print Assumptions C08_refuted_crop_fancy_left_edge.
 
+(* ---- jpeg_crop_scanline called again (documented in libjpeg.txt; in buffered-image mode before a later output pass) ---- *)
+(* the code tests the new request against the ALREADY CROPPED output_width: when the call reaches the alignment code
+   it sets the promised region ... *)
+Theorem C08_recrop_ok_agrees :
+  forall ow align x1 w1 x2 w2 x' w',
+  0 < align -> 0 <= x1 -> 0 <= x2 -> 0 < w1 ->
+  recrop_faithful ow align x1 w1 x2 w2 = Some (ReOk x' w') -> recrop_documented ow align x2 w2 = Some (x', w').
+Proof. exact recrop_ok_agrees. Qed.
+Print Assumptions C08_recrop_ok_agrees.
+
+(* ... but a request of the first region's width at another offset is ignored silently (the old region is delivered,
+   the caller's values come back unchanged) and a valid region right of the first one is rejected: known finding
+   recrop-stale-width, replayed by the K lines of the check *)
+Theorem C08_refuted_recrop_uses_cropped_width :
+  recrop_faithful 64 16 16 32 0 32 = Some (ReIgnored 16 32) /\ recrop_documented 64 16 0 32 = Some (0, 32) /\
+  recrop_faithful 64 16 16 32 32 32 = Some ReErr /\ recrop_documented 64 16 32 32 = Some (32, 32).
+Proof. exact recrop_refuted. Qed.
+Print Assumptions C08_refuted_recrop_uses_cropped_width.
+
 (* ---- round 3 (b): components with row-group height rg > 1 in the context controller ---- *)
 Theorem C08_funny_pointers_rgroup_scaled :
   forall M rg, 2 <= M <= 16 -> 1 <= rg <= 4 ->
